@@ -114,10 +114,26 @@ func compareRequest(c altstack.Call, s *spec.Spec, denom string, forward *big.In
 
 // genC05Spec draws a spec whose route parameters vary over all attribute fields.
 func genC05Spec(e *fw.Env, l *Lab) (run.Transfer, string) {
-	t, hs := genHostile(e.R, l, 100)
+	// mostly calibrated destinations; one in four cases draws hostile attribute values (odd
+	// caller / recipient lengths, unknown hooks, ...): whatever the outcome, IF the transfer is
+	// executed the request must carry exactly the payload's parameters
+	bias := 100
+	if e.R.Intn(4) == 0 {
+		bias = 0
+	}
+	t, hs := genHostile(e.R, l, bias)
 	t.Receiver = OrbiterReceiver()
+	if t.Spec.HasFee && model.Fees(bi(t.Amount), t.Spec.Fees).Verdict != model.MustSucceed {
+		t.Spec.HasFee, t.Spec.Fees = false, nil
+	}
 	r := &t.Spec.Route
-	if r.Kind == "hyp" {
+	if r.Kind == "cctp" && e.R.Intn(5) == 0 {
+		// destination callers of every length
+		r.Caller = make([]byte, []int{1, 20, 31, 33, 64}[e.R.Intn(5)])
+		e.R.Read(r.Caller)
+		r.Caller[0] |= 1
+	}
+	if r.Kind == "hyp" && hs.ValidDest {
 		// vary every optional parameter while staying on calibrated ground
 		switch e.R.Intn(4) {
 		case 0:
@@ -268,9 +284,8 @@ func compareEvents(o *run.Obs, s *spec.Spec, denom string, forward *big.Int) str
 		if len(hyp) != 0 || len(cctp) != 0 {
 			return "bridge events on an internal route"
 		}
-		if o.Delta.Of(canonAddr(r.To), denom).Cmp(forward) < 0 {
-			return "internal recipient not credited with the forwarded amount"
-		}
+		// the credit of the recipient is part of the exact full-ledger comparison (universal
+		// C02 monitor), which also handles recipients that coincide with other parties
 	}
 	return ""
 }
